@@ -30,7 +30,11 @@ META = {
         "TemplateDataPacker.pack: assumed summary (pack of empty bytes is empty); per-type pair law sampled every run",
         "struct.Struct.pack/unpack: exact built-in model for integer formats",
         "message template as loaded from message_template.msg (live objects are the instantiation domain)",
-        "template walk, block counts, header parsing: bounded tier only (stated, not proved)",
+        "per-variable value codecs (TemplateDataPacker pack/unpack pairs, _parse_var) and the message-number codec: bounded tier only; the "
+        "block walk, block counts and header parsing are under contract (call-log obligations), the byte-level equality of whole "
+        "datagrams is bounded tier",
+        "zero-coded header: zero_code_expand is an external here (its semantics are C03's subject); that two encoded bytes per decoded "
+        "byte suffice is C03's canonical-form result, used as the justification of the window obligation",
     ],
 }
 
